@@ -110,7 +110,9 @@ RunSM(c) ==
 SMRecv(c) ==
   /\ sm[c] = "running" /\ dgq[c] # <<>>
   /\ dgq' = [dgq EXCEPT ![c] = Tail(@)]
-  /\ Feed(<< [ev |-> "OutUDP", scn |-> 0, conn |-> c, op |-> Head(dgq[c])] >>)
+  \* the target answers, and the answer travels back to the peer as a Hysteria UDP datagram
+  /\ Feed(<< [ev |-> "OutUDP", scn |-> 0, conn |-> c, op |-> Head(dgq[c])],
+            [ev |-> "DgramRecv", scn |-> 0, conn |-> c, n |-> 1] >>)
   /\ UNCHANGED <<authed, sm, pend, nops, hist>>
 
 Init == /\ authed = [c \in Conns |-> FALSE] /\ sm = [c \in Conns |-> "none"]
